@@ -67,6 +67,15 @@ func c08Check(c c08Case) *evid.Fail {
 			return evid.Failf("harness-client", "%v", err)
 		}
 		rs = append(rs, r)
+		// the proxy creates the backend session of a (version, compression) class on the class's first request: make
+		// it exist now, so that connection counts taken before an action describe the connections the action can use
+		ws := r.nextStream()
+		if err := r.c.SendMsg(r.v, ws, &message.Query{Query: "SELECT * FROM ks1.warmup WHERE k = '" + nextToken() + "'", Options: &message.QueryOptions{Consistency: primitive.ConsistencyLevelOne}}, false); err != nil {
+			return evid.Failf("harness-send", "%v", err)
+		}
+		if r.c.WaitStream(ws, 0, 1, posWait) == nil {
+			return evid.Failf("no-reply", "client %d: the warm-up query was not answered", i)
+		}
 		classes[i] = fmt.Sprintf("%d-%s", cc.Version, cc.Comp)
 		if c.Shared {
 			classes[i] = "shared"
@@ -278,7 +287,24 @@ func c08Check(c c08Case) *evid.Fail {
 						}
 						time.Sleep(time.Millisecond)
 					}
-					time.Sleep(3 * time.Millisecond)
+					// ... and wait until this client's session can actually use every host again (the backend
+					// sees the new TCP connection before the proxy's pool has finished its handshake)
+					seen := map[int]bool{}
+					for len(seen) < upHosts() {
+						r := rs[ci]
+						ps := r.nextStream()
+						from := r.c.NumFrames()
+						_ = r.c.SendMsg(r.v, ps, &message.Query{Query: "SELECT * FROM ks1.probe WHERE k = '" + nextToken() + "'", Options: &message.QueryOptions{Consistency: primitive.ConsistencyLevelOne}}, false)
+						if rp := r.c.WaitStream(ps, from, 1, posWait); rp != nil {
+							if pri, err := r.reply(rp); err == nil && pri.Echo != nil {
+								seen[pri.Echo.Host] = true
+							}
+						}
+						if time.Now().After(deadline) {
+							return evid.Failf("no-reconnect", "action %d: %v after a scripted connection loss only hosts %v serve this client's session again", ai, posWait, seen)
+						}
+						time.Sleep(time.Millisecond)
+					}
 					break
 				}
 			}
@@ -296,7 +322,9 @@ func c08Check(c c08Case) *evid.Fail {
 			}
 			for _, w := range waits {
 				if f := w(); f != nil {
-					f.Sig = "burst:" + f.Sig
+					if f.Sig != "cross-session-reprepare" { // the recorded finding keeps its signature wherever it shows up
+						f.Sig = "burst:" + f.Sig
+					}
 					return f
 				}
 			}
